@@ -5,11 +5,11 @@ set -u
 wt=$1; seed=$2; dest=$3; shift 3
 export CARGO_NET_OFFLINE=true CARGO_TARGET_DIR=$wt/target
 cd $wt || exit 9
-git checkout -q -- . && git clean -fdq -e SEED -e target
+git checkout -q -- . && git clean -fdq -e 'SEED*' -e target
 mkdir -p $(dirname $dest); cp $seed/demo.rs $dest
 echo "--- demo on clean tree"; cargo test --offline "$@" 2>&1 | grep -E "^test result|error(\[|:)" | sort | uniq -c
 git apply $seed/patch.diff || { echo "PATCH DOES NOT APPLY"; exit 1; }
 echo "--- demo with patch"; cargo test --offline "$@" 2>&1 | grep -E "^test result|error(\[|:)" | sort | uniq -c
 rm -f $dest
 echo "--- workspace suite with patch"; cargo test --workspace --no-fail-fast --offline 2>&1 | grep -E "^test result" | grep -v " 0 failed" ; echo "(lines above = suites with failures; none = all pass)"
-git checkout -q -- . && git clean -fdq -e SEED -e target
+git checkout -q -- . && git clean -fdq -e 'SEED*' -e target
